@@ -1003,7 +1003,7 @@ class Decider:
         self.solver_s = 0.0
         self.log = []
 
-    def check(self, conds, label, z3_ms=15000, cvc5_s=120):
+    def check(self, conds, label, z3_ms=15000, cvc5_s=300):
         """-> ('sat', model) | ('unsat', None) | ('unknown', why).
         Both solvers are asked.  If both decide they must agree; if only one decides within its
         time limit its verdict stands (recorded in the log); a sat verdict needs a z3 model or is
